@@ -427,9 +427,81 @@ fn ps(report: &Report, cli: &Cli) {
     report.add_extra_count("ps_message_vectors", vectors.len() as u64);
 }
 
+/// Proofs of possession of ed25519 keys (account / baker signature keys and, through the same
+/// routine, VRF election keys): all (proved key, proved context) x (checked key, checked
+/// context) combinations and the complete single-bit-flip neighbourhood of the proof.
+fn ed25519_possession(report: &Report, cli: &Cli) {
+    use concordium_base::eddsa_ed25519::{prove_dlog_ed25519, verify_dlog_ed25519, Ed25519DlogProof};
+    struct Kp(ed25519_dalek::SigningKey);
+    impl Kp {
+        fn public(&self) -> ed25519_dalek::VerifyingKey { self.0.verifying_key() }
+        fn secret(&self) -> [u8; 32] { self.0.to_bytes() }
+    }
+    let kps: Vec<Kp> = (0..3u8).map(|i| Kp(ed25519_dalek::SigningKey::from_bytes(&[(cli.seed as u8).wrapping_add(40 + i); 32]))).collect();
+    let contexts: Vec<&[u8]> = vec![b"", b"ctx-one", b"ctx-two"];
+    for (k, kp) in kps.iter().enumerate() {
+        for (c, ctx) in contexts.iter().enumerate() {
+            let proof = prove_dlog_ed25519(&mut rng(cli.seed, 1910 + (k * 3 + c) as u64), &mut RandomOracle::domain(ctx), &kp.public(), &kp.secret());
+            for (k2, kp2) in kps.iter().enumerate() {
+                for (c2, ctx2) in contexts.iter().enumerate() {
+                    case(report, json!({"ed25519_pop": {"proved_key": k, "proved_ctx": c, "checked_key": k2, "checked_ctx": c2}}), || {
+                        let got = verify_dlog_ed25519(&mut RandomOracle::domain(ctx2), &kp2.public(), &proof);
+                        let want = k == k2 && c == c2;
+                        report.trace(1);
+                        if got != want {
+                            return fail(if want { "valid-proof-of-possession-rejected" } else { "proof-of-possession-verifies-for-other-key-or-context" }, json!({"got": got, "scheme": "ed25519"}));
+                        }
+                        Ok(())
+                    });
+                }
+            }
+            // every bit of the proof
+            let pb = to_bytes(&proof);
+            for bit in 0..pb.len() * 8 {
+                case(report, json!({"ed25519_pop_flip": {"key": k, "ctx": c, "bit": bit}}), || {
+                    if let Ok(p2) = from_bytes::<Ed25519DlogProof, _>(&mut &flip(&pb, bit)[..]) {
+                        report.trace(1);
+                        if to_bytes(&p2) != pb && verify_dlog_ed25519(&mut RandomOracle::domain(ctx), &kp.public(), &p2) {
+                            return fail("altered-proof-of-possession-verifies", json!({"bit": bit, "scheme": "ed25519"}));
+                        }
+                    }
+                    Ok(())
+                });
+            }
+            // round trip of the proof
+            case(report, json!({"ed25519_pop_roundtrip": {"key": k, "ctx": c}}), || {
+                let back: Ed25519DlogProof = from_bytes(&mut &pb[..]).map_err(|e| ("proof-does-not-decode".to_string(), json!(format!("{e:#}"))))?;
+                if to_bytes(&back) != pb || !verify_dlog_ed25519(&mut RandomOracle::domain(ctx), &kp.public(), &back) {
+                    return fail("proof-round-trip-differs", json!({}));
+                }
+                Ok(())
+            });
+        }
+    }
+    // the same routine proves possession of VRF keys
+    let vsk = ecvrf::SecretKey::generate(&mut rng(cli.seed, 1950));
+    let vpk = ecvrf::PublicKey::from(&vsk);
+    let vsk2 = ecvrf::SecretKey::generate(&mut rng(cli.seed, 1951));
+    let vpk2 = ecvrf::PublicKey::from(&vsk2);
+    case(report, json!({"ed25519_pop": "vrf keys"}), || {
+        let proof = prove_dlog_ed25519(&mut rng(cli.seed, 1952), &mut RandomOracle::domain(b"vrf"), &vpk, &vsk);
+        let as_vk = |k: &ecvrf::PublicKey| ed25519_dalek::VerifyingKey::from_bytes(&to_bytes(k).try_into().unwrap()).ok();
+        report.trace(3);
+        let (Some(a), Some(b)) = (as_vk(&vpk), as_vk(&vpk2)) else { return fail("vrf-key-not-an-ed25519-point", json!({})) };
+        if !verify_dlog_ed25519(&mut RandomOracle::domain(b"vrf"), &a, &proof) {
+            return fail("valid-proof-of-possession-rejected", json!({"scheme": "ed25519 (vrf key)"}));
+        }
+        if verify_dlog_ed25519(&mut RandomOracle::domain(b"vrf"), &b, &proof) || verify_dlog_ed25519(&mut RandomOracle::domain(b"other"), &a, &proof) {
+            return fail("proof-of-possession-verifies-for-other-key-or-context", json!({"scheme": "ed25519 (vrf key)"}));
+        }
+        Ok(())
+    });
+}
+
 pub fn run(cli: &Cli) -> ! {
     let report = Report::new(cli);
     bls(&report, cli);
+    ed25519_possession(&report, cli);
     bls_large_signer_sets(&report, cli);
     vrf(&report, cli);
     ps(&report, cli);
